@@ -177,4 +177,9 @@ void COSyncProdSend(void *parg) {
     CO_SET_DLC(&frm, 0);
 
     (void)COIfCanSend(&sync->Node->If, &frm);
+
+    /* the produced SYNC drives the synchronous PDOs of this node, too */
+    if (COSyncUpdate(sync, &frm) >= 0) {
+        COSyncHandler(sync);
+    }
 }
